@@ -67,7 +67,9 @@ Inductive case :=
 | CaseNsec3Work (z : rzone) (signer : name) (recs : list nsec3) (kept : list N) (prefilter : bool)
                 (tab : list (name * N)) (exact_judged aggr_judged : bool) (failed : list name) (probes : list probe3)
   (* Resolver.authority on a signed negative response built from the zone's records *)
-| CaseAuthNsec (z : rzone) (signer : name) (recs : list nsec) (kept : list N) (probes : list aprobe)
+  (* signed (session 4): per record, whether its RRset carries an RRSIG made with the zone's key (false:
+     unsigned, or signed by another zone's key — a child / sibling zone's record replayed into the answer) *)
+| CaseAuthNsec (z : rzone) (signer : name) (recs : list nsec) (signed : list bool) (kept : list N) (probes : list aprobe)
 | CaseAuthNsec3 (z : rzone) (signer : name) (recs : list nsec3) (kept : list N) (tab : list (name * N))
                 (judged : bool) (probes : list aprobe)
   (* shared negative-cache state through Cache.ServeDNS: zone, maximum TTL, history of client
@@ -258,12 +260,14 @@ Definition check_case (c : case) : bool :=
   | CaseShared z maxttl li lc tab ops =>
       check_shared (mk_limits (N.to_nat li) (N.to_nat lc)) maxttl (map (fun p => (canon (fst p), snd p)) tab)
                    (canon (rz_apex z)) shared_empty 0 ops
-  | CaseAuthNsec z signer recs kept probes =>
+  | CaseAuthNsec z signer recs signed kept probes =>
       let cs := canon_recs recs in
       let sg := canon signer in
       let f := filter_to_zone sg cs in
       list_eqb N.eqb (map (fun r => N.of_nat (c_idx r)) f) kept &&
-      forallb (fun p => auth_eqb (authority_nsec (a_rcode p) (a_cd p) (canon (a_q p)) (a_qtype p) (a_qclass p) sg (reindex f)) p) probes
+      (length signed =? length recs)%nat &&
+      forallb (fun p => auth_eqb (authority_nsec_signed (a_rcode p) (a_cd p) (canon (a_q p)) (a_qtype p) (a_qclass p) sg
+                                                        (combine cs signed)) p) probes
   | CaseAuthNsec3 z signer recs kept tab _ probes =>
       let sg := canon signer in
       list_eqb N.eqb (idx_where (fun r => prefix_b sg (canon (r_zone r))) 0 recs) kept &&
@@ -331,12 +335,13 @@ Definition spec_case (c : case) : bool :=
   | CaseShared rz maxttl _ _ _ ops =>
       let z := canon_zone rz in
       if negb (zone_wf_b z) then true else spec_shared z false false ops
-  | CaseAuthNsec rz signer recs kept probes =>
+  | CaseAuthNsec rz signer recs signed kept probes =>
       let z := canon_zone rz in
       let cs := canon_recs recs in
-      let keptrecs := filter (fun r => existsb (N.eqb (N.of_nat (c_idx r))) kept) cs in
+      (* judged when everything the ZONE'S key signed is a genuine chain record; records that are unsigned or
+         signed by another zone's key are arbitrary (Properties.authority_nsec_signed_sound) *)
       if negb (zone_wf_b z && rname_eqb (canon signer) (z_apex z) &&
-               forallb (fun r => genuine_b z r && (c_class r =? zone_class)) keptrecs) then true else
+               forallb (fun rs => negb (snd rs) || (genuine_b z (fst rs) && (c_class (fst rs) =? zone_class))) (combine cs signed)) then true else
       forallb (spec_aprobe z) probes
   | CaseAuthNsec3 rz signer recs kept tab judged probes =>
       let z := canon_zone rz in
